@@ -181,6 +181,45 @@ fn gen_large(seed: u64, k: u64) -> (Vec<Vec<i64>>, bool) {
     (matrix, errors)
 }
 
+/// Many cases (33..257, beyond what the enumeration of all orders can handle) with an analytically
+/// known law: n "specialists", individual i strictly best on s_i cases of its own and equal to everybody
+/// on all other cases.  Whichever special case comes first in the random order decides, so
+/// P(i) = s_i / sum(s); an individual with s_i = 0 is dominated and must never win.
+fn gen_many_cases(seed: u64, k: u64) -> (Vec<Vec<i64>>, bool, Vec<f64>) {
+    let mut x = seed ^ k.wrapping_mul(0xD134_2543_DE82_EF95);
+    let mut next = move || {
+        x = x.wrapping_add(0x9E37_79B9_7F4A_7C15);
+        splitmix(x)
+    };
+    let errors = next() % 2 == 0;
+    let m = [33usize, 40, 64, 65, 100, 257][(k % 6) as usize];
+    let n = 2 + (next() % 5) as usize;
+    let base = 1 + (next() % 2) as i64;
+    let better = if errors { base - 1 } else { base + 1 };
+    let mut matrix = vec![vec![base; m]; n];
+    let mut special = vec![0usize; n];
+    // distinct special cases, spread over the whole range (also among the last ones)
+    let mut used = std::collections::BTreeSet::new();
+    for i in 0..n {
+        let s_i = match (k + i as u64) % 4 {
+            0 => 0,
+            1 | 2 => 1,
+            _ => 1 + (next() % 3) as usize,
+        };
+        for _ in 0..s_i {
+            let mut c = (next() % m as u64) as usize;
+            while !used.insert(c) {
+                c = (c + 1) % m;
+            }
+            matrix[i][c] = better;
+            special[i] += 1;
+        }
+    }
+    let total: usize = special.iter().sum();
+    let law = if total == 0 { vec![1.0 / n as f64; n] } else { special.iter().map(|s| *s as f64 / total as f64).collect() };
+    (matrix, errors, law)
+}
+
 fn run_lexicase<R: Res>(pop: &Pop<R>, c: usize, trials: u64, seed: u64, name: &str, matrix: &[Vec<i64>], errors: bool, law: &[f64]) -> Result<Vec<u64>, Fail> {
     let lex = Lexicase::new(c);
     let mut rng = StdRng::seed_from_u64(seed);
@@ -234,20 +273,33 @@ fn grouped_population<R: Res + Copy + From<i64>>(matrix: &[Vec<i64>]) -> Pop<Tes
         .collect()
 }
 
-fn jobs(seed: u64, n_matrices: u64, n_large: u64) -> (Vec<Job>, Vec<Value>, usize, usize) {
+fn jobs(seed: u64, n_matrices: u64, n_large: u64, n_many: u64) -> (Vec<Job>, Vec<Value>, usize, usize) {
     let mut n_discriminating = 0usize;
     let mut n_partial = 0usize;
     let mut jobs = vec![];
     let mut descr = vec![];
-    for k in 0..n_matrices + n_large {
+    for k in 0..n_matrices + n_large + n_many {
         let ms = splitmix(seed ^ 0xC08) ^ k.wrapping_mul(0x9E37);
-        let (matrix, errors) = if k < n_matrices { gen_matrix(ms) } else { gen_large(ms, k - n_matrices) };
+        let many = k >= n_matrices + n_large;
+        let mut analytic: Option<Vec<f64>> = None;
+        let (matrix, errors) = if k < n_matrices {
+            gen_matrix(ms)
+        } else if !many {
+            gen_large(ms, k - n_matrices)
+        } else {
+            let (mx, e, law) = gen_many_cases(ms, k - n_matrices - n_large);
+            analytic = Some(law);
+            (mx, e)
+        };
         let n = matrix.len();
         let m = matrix.first().map_or(0, Vec::len);
         // configured case count: mostly all results, otherwise fewer (0 included)
-        let c = if m == 0 || splitmix(ms ^ 0xCC) % 5 < 3 { m } else if k < n_matrices { (splitmix(ms ^ 0xCD) % m as u64) as usize } else { m - 1 - (splitmix(ms ^ 0xCD) % 2) as usize };
+        let c = if many || m == 0 || splitmix(ms ^ 0xCC) % 5 < 3 { m } else if k < n_matrices { (splitmix(ms ^ 0xCD) % m as u64) as usize } else { m - 1 - (splitmix(ms ^ 0xCD) % 2) as usize };
         n_partial += usize::from(c < m);
-        let rd = readings(&matrix, errors, c);
+        let rd = match &analytic {
+            Some(law) => vec![("analytic law of specialists".to_string(), law.clone())],
+            None => readings(&matrix, errors, c),
+        };
         let law = rd[0].1.clone();
         let no_shuffle = law_over(&matrix, errors, &[(0..c).collect::<Vec<_>>()]);
         let first_only: Vec<Vec<usize>> = (0..c).map(|c| vec![c]).collect();
@@ -256,7 +308,8 @@ fn jobs(seed: u64, n_matrices: u64, n_large: u64) -> (Vec<Job>, Vec<Value>, usiz
         let discriminating = dist(&law, &no_shuffle) > 0.02 && dist(&law, &first_only) > 0.02;
         n_discriminating += usize::from(discriminating);
         let grouped = splitmix(ms ^ 0x6E0) % 4 == 0;
-        let name = format!("Lexicase({c}) {}{} matrix #{k} {matrix:?}", if grouped { "grouped " } else { "" }, if errors { "errors" } else { "scores" });
+        let shown = if many { format!("{} specialists over {m} cases, law {law:?}", matrix.len()) } else { format!("{matrix:?}") };
+        let name = format!("Lexicase({c}) {}{} matrix #{k} {shown}", if grouped { "grouped " } else { "" }, if errors { "errors" } else { "scores" });
         if descr.len() < 6 || (discriminating && descr.len() < 12) || (c < m && descr.len() < 16) {
             descr.push(json!({"matrix": matrix, "configured_cases": c, "errors_polarity": errors, "law": law, "law_without_shuffle": no_shuffle, "law_first_case_only": first_only, "discriminating": discriminating, "readings": rd.len()}));
         }
@@ -299,9 +352,10 @@ fn jobs(seed: u64, n_matrices: u64, n_large: u64) -> (Vec<Job>, Vec<Value>, usiz
 pub fn run(ctx: &mut Ctx) {
     let (n_matrices, trials) = ctx.tier.pick((400u64, 400_000u64), (8_000, 2_000_000));
     let n_large = ctx.tier.pick(12u64, 120);
-    ctx.rule = format!("{n_matrices} generated result matrices (1..8 individuals x 0..5 cases, values 0..3, specialists / heavy ties / groups of exact copies / singleton / zero cases / more cases than individuals, both polarities; in a quarter of the matrices every per-case result is a group of sub-results - the crate's TestResults as the per-case type - ordered by its total, so that equal-ranking results need not be structurally equal), plus {n_large} larger ones (12..100 individuals x 6..8 cases), configured case count = number of results in 3 of 5 matrices and a smaller count (0 included) otherwise; {trials} seeded draws each through the real Lexicase. Oracle: the exact law P(i) = sum over all case orders [i survives] / (|survivors| * c!) with an independent definition of 'better'; every draw: P(winner) > 0 (never dominated) exactly; frequencies by the Chernoff/KL rule. non-trivial = a (matrix, individual) statistic with 0 < p < 1");
+    let n_many = ctx.tier.pick(36u64, 360);
+    ctx.rule = format!("{n_matrices} generated result matrices (1..8 individuals x 0..5 cases, values 0..3, specialists / heavy ties / groups of exact copies / singleton / zero cases / more cases than individuals, both polarities; in a quarter of the matrices every per-case result is a group of sub-results - the crate's TestResults as the per-case type - ordered by its total, so that equal-ranking results need not be structurally equal), plus {n_large} larger ones (12..100 individuals x 6..8 cases), and {n_many} with 33..257 cases whose law is known analytically (specialists: P(i) = own special cases / all special cases), configured case count = number of results in 3 of 5 matrices and a smaller count (0 included) otherwise; {trials} seeded draws each through the real Lexicase. Oracle: the exact law P(i) = sum over all case orders [i survives] / (|survivors| * c!) with an independent definition of 'better'; every draw: P(winner) > 0 (never dominated) exactly; frequencies by the Chernoff/KL rule. non-trivial = a (matrix, individual) statistic with 0 < p < 1");
     ctx.assumptions.push("for a configured case count c smaller than the number of results the statement does not say which c cases are considered: the law of every fixed c-subset and of a uniformly random c-subset are all accepted (the observed frequencies are judged against the reading that fits them best), and a winner only has to be possible under one of them".into());
-    let (jobs, descr, discriminating, partial) = jobs(ctx.seed, n_matrices, n_large);
+    let (jobs, descr, discriminating, partial) = jobs(ctx.seed, n_matrices, n_large, n_many);
     ctx.extra.insert("matrices_with_fewer_configured_cases_than_results".into(), json!(partial));
     ctx.extra.insert("sample_matrices".into(), json!(descr));
     ctx.extra.insert("matrices_whose_law_differs_from_no_shuffle_and_first_case_only".into(), json!(discriminating));
